@@ -18,23 +18,31 @@ lists by single-input graders (C02.D3 -> C01); refusing sibling names on the scr
 (C08.D1 -> C07); results on being fresh objects (C11.D9 -> C08, C18); histories on cached parse results staying unmodified
 (C10.D5 -> C11); sample ranges on the validators of the range options (C20.D6 -> C12); comparer verdicts on the consolidation
 over samples and on the tolerance string (C04.D3/D5 -> C16); the summation scopes on the per-instance copy of the default
-tables (C11.D7 -> C19).  `run.run_rules` imports the
+tables (C11.D7 -> C19).
+
+Fifth wave (refactorings with one slip): the anticipated shape error of a built-in function depends on the domain decorator's
+validators (C15.D4 -> C02); the credit schedule is called outside the guard of __call__, so what reaches it (C17.D2) decides whether a
+non-library exception can escape (-> C02); which groupings a ListGrader accepts is C20's cross-option table (C20.D5 -> C05); the
+credit of an alternative list is applied by SingleListGrader.process_grade_list (C07.D3 -> C08); histories depend on the parser's
+scratch storage being handed over and reset (C10.D1/D2 -> C11); the constants a formula may use are the per-instance copy of the
+default table (C11.D7 -> C15).  `run.run_rules` imports the
 listed rules of the related module under the id `<prop>.REL.<original id>` (same obligations, same floors).
 """
 
 RELATED = {
     'C01': {'C17': ('D2.', 'D3.'), 'C11': ('D5.',), 'C02': ('D3.',)},
-    'C02': {'C13': ('D1.',), 'C10': ('D2.',), 'C14': ('D1.',), 'C09': ('D4.',)},
+    'C02': {'C13': ('D1.',), 'C10': ('D2.',), 'C14': ('D1.',), 'C09': ('D4.',), 'C15': ('D4.',), 'C17': ('D2.',)},
     'C03': {'C11': ('D8.',), 'C02': ('D6.',)},
     'C04': {'C01': ('D3.',), 'C11': ('D8.',)},
+    'C05': {'C20': ('D5.',)},
     'C07': {'C08': ('D1.',)},
-    'C08': {'C01': ('D3.',), 'C04': ('D4.',), 'C11': ('D9.',)},
+    'C08': {'C01': ('D3.',), 'C04': ('D4.',), 'C11': ('D9.',), 'C07': ('D3.',)},
     'C09': {'C10': ('D1.', 'D2.', 'D3.'), 'C11': ('D7.',), 'C13': ('D5.',), 'C01': ('D3.',)},
-    'C10': {'C11': ('D8.',)},
-    'C11': {'C10': ('D5.',)},
+    'C10': {'C11': ('D8.', 'D10.')},
+    'C11': {'C10': ('D1.', 'D2.', 'D5.')},
     'C12': {'C20': ('D6.',)},
     'C14': {'C11': ('D8.',)},
-    'C15': {'C02': ('D5.', 'D6.')},
+    'C15': {'C02': ('D5.', 'D6.'), 'C11': ('D7.',)},
     'C16': {'C04': ('D1.', 'D3.', 'D5.')},
     'C17': {'C02': ('D2.',)},
     'C18': {'C08': ('D2.', 'D3.'), 'C11': ('D9.',)},
